@@ -384,8 +384,10 @@ impl Interp {
                 zp::file_op(b'R', 0, 0, e as u16, "", &[])
             }
             Chunk::MakeDirTree { p } => {
-                let path = format!("{}/sub", p.path().replace('.', "_"));
-                self.fs.allowed_dirs.insert(path.clone());
+                // every other MakeDirTree names its tree with a trailing separator: then the last component is a
+                // directory to make as well
+                let path = format!("{}/sub{}", p.path().replace('.', "_"), if p.name % 2 == 1 { "/" } else { "" });
+                self.fs.allowed_dirs.insert(path.trim_end_matches('/').to_string());
                 for a in ancestors(&path) {
                     self.fs.allowed_dirs.insert(a.clone());
                     self.fs.required_dirs.insert(a);
